@@ -80,30 +80,35 @@ def rule_method_gates(check):
     prog = check.prog
     pv = Prov(prog)
     sites = []
-    for f in prog.user_fns:
-        for n in f.nodes():
-            if n.get("k") == "Struct" and (n["res"].get("path") or "").endswith("ResultExpr"):
-                sites.append((f, n))
-    check.floor(R, "ResultExpr constructions", len(sites), 3)
+    gp = prog.fn("visitor_util::get_dd_paren_expr")
+    for f, n in prog.sites_calling(gp):
+        if not hir.is_call(n):
+            continue
+        no = pv.origins(f, hir.call_args(n)[3])
+        # method hooks: the name is the dst of an entry returned by CsiMethods::get (operators use plus/tpl entries)
+        if any(p and p[-1] == "dst" and r[0] == "call" and "find" in r[1] and "CsiMethods::get" in r[2] for r, p in no):
+            sites.append((f, n))
+    check.floor(R, "method hook emissions", len(sites), 3)
     for f, n in sites:
         atoms = gate.atoms_at(f, n)
         got = None
         for c in f.conds_at(n):
             if c["t"] == "pat" and c["v"] and isinstance(hir.pat_variant(c["pat"]), str) and hir.pat_variant(c["pat"]).split("::")[-1] == "Some":
-                s = hir.peel(c["scrut"])
-                if hir.is_call(s) and hir.callee_name(s) == "get" and "CsiMethods" in s["callee"]["path"]:
-                    got = s
+                s_ = hir.peel(c["scrut"])
+                if hir.is_call(s_) and hir.callee_name(s_) == "get" and "CsiMethods" in s_["callee"]["path"]:
+                    got = s_
         key = "%s/%s" % (R, f.name)
         if got is None:
-            check.bad(R, key, hir.loc(n), "%s builds a hook without a successful csi_methods.get(..)" % f.name)
+            check.bad(R, key, hir.loc(n), "%s builds a method hook without a successful csi_methods.get(..) in scope" % f.name)
             continue
         name_o = pv.origins(f, hir.call_args(got)[1])
         ok_name = bool(name_o) and all(p and p[-1] == "sym" for r, p in name_o)
         check.expect(ok_name, R, key, hir.loc(n), "hook built under csi_methods.get(<callee .sym>) == Some", "the name looked up in the configuration is not the called method's name: %s" % sorted(origin_str(o) for o in name_o))
-        if "without_callee" in f.name:
+        resolved = pv.resolve_params(name_o)
+        bare = any("callee.Expr.0.Ident.0.sym" in ".".join(p) for r, p in resolved)
+        if bare:
             ok = any(a[0] == "place" and a[1].endswith(".allowed_without_callee") and a[2] is True for a in atoms)
             check.expect(ok, R, key + "/allowed_without_callee", hir.loc(n), "bare call only when allowed_without_callee", "a bare call is instrumented without checking allowed_without_callee")
-        # the entry whose dst names the hook is the one that was looked up
     g = prog.fn("CsiMethods::get")
     r = [hir.peel(x) for x in return_exprs(g.body)]
     terms = []
@@ -368,7 +373,56 @@ def rule_defaults(check):
         check.expect(flds == wantd, R, R + "/fallback-config", hir.loc(l), "fallback RewriterConfig = documented defaults", "fallback RewriterConfig is %s" % flds)
 
 
+def rule_config_plumbing(check):
+    R = "CONFIG-PLUMBING"
+    check.rule(R, "every configured entry reaches the method list unchanged: get_csi_methods maps each entry (src, dst, operator, allowedWithoutCallee) in that order into CsiMethod::new, which stores each parameter in the field of the same name; CsiMethods::new keeps the complete list")
+    prog = check.prog
+    pv = Prov(prog)
+    gm = prog.fn("lib_wasm::RewriterConfig::get_csi_methods")
+    calls = [n for n in hir.walk(gm.body) if hir.is_call(n) and hir.callee_name(n) == "new" and "csi_methods::CsiMethod" in n["callee"]["path"] and "CsiMethods" not in n["callee"]["path"].split("::")[-2]]
+    check.floor(R, "CsiMethod::new call sites", len(calls), 1)
+    for n in calls:
+        fields = []
+        for a in hir.call_args(n):
+            x = hir.peel_transparent(a)
+            while hir.is_call(x) and (hir.callee_name(x) or x.get("method")) in ("unwrap_or", "clone"):
+                x = hir.peel_transparent(hir.call_args(x)[0])
+            fields.append(x["field"] if x.get("k") == "Field" else "?")
+        check.expect(fields == ["src", "dst", "operator", "allowed_without_callee"], R, R + "/argument-order", hir.loc(n), "CsiMethod::new(src, dst, operator, allowed_without_callee)", "configuration fields are passed as %s" % fields)
+        chain = []
+        cl = None
+        for anc in gm.ancestors(n):
+            if anc.get("k") == "Closure":
+                cl = anc
+                break
+        call = gm.parent(cl) if cl else None
+        while call is not None and not hir.is_call(call):
+            call = gm.parent(call)
+        x = call
+        while x is not None and x.get("k") == "MethodCall":
+            chain.append(x["method"])
+            x = hir.peel(x["recv"])
+        check.expect(chain == ["map", "iter"], R, R + "/all-entries", hir.loc(n), "every configured entry is mapped", "configured entries go through %s" % chain)
+    cn = prog.fn("csi_methods::CsiMethod::new")
+    names = [hir.pat_bindings(p["pat"])[0]["name"] for p in cn.rec["params"]]
+    for lit in [x for x in hir.walk(cn.body) if x.get("k") == "Struct" and (x["res"].get("path") or "").endswith("CsiMethod")]:
+        ok = True
+        for fl in lit["fields"]:
+            o = pv.origins(cn, fl["e"])
+            idx = names.index(fl["name"]) if fl["name"] in names else -1
+            good = all(r[0] == "param" and r[2] in (idx, names.index("src") if fl["name"] == "dst" else idx) for r, p in o)
+            ok = ok and good
+        check.expect(ok, R, R + "/fields", hir.loc(lit), "each field stores the parameter of the same name (dst falls back to src)", "CsiMethod::new stores parameters in other fields")
+    new = prog.fn("CsiMethods::new")
+    for lit in [x for x in hir.walk(new.body) if x.get("k") == "Struct" and (x["res"].get("path") or "").endswith("CsiMethods")]:
+        m = [fl["e"] for fl in lit["fields"] if fl["name"] == "methods"][0]
+        x = hir.peel(m)
+        ok = hir.is_call(x) and (hir.callee_name(x) or x.get("method")) in ("to_vec", "to_owned", "clone") and hir.local_of(hir.call_args(x)[0]) and new.bindings()[hir.local_of(hir.call_args(x)[0])[0]]["origin"][:2] == ("param", 0)
+        check.expect(bool(ok), R, R + "/complete-list", hir.loc(lit), "methods = the complete configured list", "CsiMethods::new does not keep the complete configured list (%s)" % hir.describe(m))
+
+
 def run(check):
+    check.guarded("CONFIG-PLUMBING", rule_config_plumbing)
     check.guarded("OP-GATE", rule_op_gates)
     check.guarded("METHOD-GATE", rule_method_gates)
     check.guarded("HOOK-NAMES", rule_names)
